@@ -10,21 +10,21 @@ def jobs(tier, seed, prop):
     enums = tables.cut_enum("TypeOneDRule", R)[0]
     t, info = transforms.emit(R)
     cf = ContractFile("contracts/transforms.c")
-    LB, LX, KMAX = (4, 4, 4) if tier == "quick" else (12, 10, 10)
+    LB, LX, KMAX = (3, 3, 3) if tier == "quick" else (12, 10, 10)
     pre = '#include "tsg_shim.h"\nint tsg_exc;\n#define TSG_NDIM 2\n#define LB %d\n#define LX %d\n#define KMAX %d\n' % (LB, LX, KMAX) + enums + '#line 1 "/verif/contracts/transforms.c"\n' + cf.text(("text",)) + t
     fl = ["%s:%d %s" % (f["file"], f["line"], f["name"]) for f in info["functions"]]
     out = []
     FAMS = {"laguerre": "FAM_LAGUERRE(r)", "hermite": "FAM_HERMITE(r)", "fourier": "((r) == rule_fourier)", "jacobi": "FAM_JACOBI(r)",
             "canonical": "(!FAM_LAGUERRE(r) && !FAM_HERMITE(r) && !FAM_JACOBI(r) && (r) != rule_fourier)"}
-    pairs = [(l, f) for l in ("lemma_roundtrip", "lemma_qscale") for f in FAMS if not (l == "lemma_roundtrip" and f == "jacobi")]
+    pairs = [(l, f) for l in ("lemma_roundtrip", "lemma_qscale", "lemma_jacobian") for f in FAMS if not (l != "lemma_qscale" and f == "jacobi")]
     if tier == "quick":     # quick: the [-1,1] family always, one further family chosen by the seed; thorough: all families
         other = ["laguerre", "hermite", "fourier"][seed % 3]
-        pairs = [(l, f) for l, f in pairs if f in ("canonical", other) or (l == "lemma_qscale" and f == "jacobi")]
-    if prop == "C05":
-        pairs = []          # C05 uses only the chain-rule scaling loops below (the rate itself is L10b in C10)
+        pairs = [(l, f) for l, f in pairs if f in ("canonical", other) or (l == "lemma_qscale" and f == "jacobi") or l == "lemma_jacobian"]
+    if prop == "C05":       # C05: the Jacobian factor (L10b inside lemma_roundtrip) and the chain-rule loops below
+        pairs = [(l, f) for l, f in pairs if l == "lemma_jacobian"]
     for lem, fam in pairs:
         fexpr = FAMS[fam]
-        if lem == "lemma_roundtrip" and fam == "canonical":
+        if lem != "lemma_qscale" and fam == "canonical":
             fexpr = "(!FAM_LAGUERRE(r) && !FAM_HERMITE(r) && (r) != rule_fourier)"   # the Jacobi-type rules share the [-1,1] map
         pre_f = pre.replace("#define LB ", "#define FAMILY(r) %s\n#define LB " % fexpr, 1)
         out.append(Job("transforms.%s.%s" % (lem, fam), pre_f + cf.text(("lemma",), [lem]) + cf.text(("harness",), ["h_" + lem]), "h_" + lem, enforce=lem, split=r'lemma_\w+\.assertion\.\d+$',
@@ -33,8 +33,8 @@ def jobs(tier, seed, prop):
                        bounded="exact lattice: |a| <= 2^%d, widths 2^k with k <= %d, canonical x = i*2^-%d; dimensions <= 2" % (LB, KMAX, LX),
                        assumed=["sqrt(x) returns r >= 0 with r*r == x on perfect squares (stub)", "pow is uninterpreted; only its arguments are checked",
                                 "rounding off the lattice and the conformal (asin) map are not covered"],
-                       label={"lemma_roundtrip": "L10a/L10b forward and inverse maps are mutual inverses; the Jacobian is the pull-back rate (all rules)",
-                              "lemma_qscale": "L10c quadrature scale per rule family"}[lem] + " [family: %s]" % fam))
+                       label={"lemma_roundtrip": "L10a forward and inverse maps are mutual inverses, end points map to a and b",
+                              "lemma_jacobian": "L10b the Jacobian of the pull-back is its multiplicative rate", "lemma_qscale": "L10c quadrature scale per rule family"}[lem] + " [family: %s]" % fam))
     # chain-rule scaling loops at grid level
     Rc = X.Rules()
     ct, cinfo = transforms.emit_chain_loops(Rc)
